@@ -3,8 +3,14 @@ import os
 from . import core, eng, gen, engcheck
 
 THEOREMS = ["timeout_true_complete", "timeout_false_sound", "interrupted_between", "resume_complete", "lattice_timeout_sound", "lattice_resume_complete", "timeout_false_sound_agg", "timeout_false_sound_agg_from", "resume_complete_agg",
-            "timeout_sound_phys", "timeout_true_complete_phys", "resume_complete_phys", "timeout_false_sound_phys_agg", "timeout_true_complete_phys_agg", "resume_complete_phys_agg", "negA_interrupted", "timeout_sound_physLat", "resume_complete_physLat"]
-TRUSTED = ["Props/C13PhysLat.lean (Model/EnginePhysLatTimeout.lean, Proofs/PhysLatFrom*.lean, PhysLatTimeout.lean): the physical engine WITH lattices from ANY legal program value (runPhysLat_from), idempotence of run() (rerun_idempotent_physLat, antisymmetric orders), run_timeout sound whatever it returns (timeout_sound_physLat) and completion of a resumed run (resume_complete_physLat); tied by `eng runtopl` / `eng runpl` on lattice programs",
+            "timeout_sound_phys", "timeout_true_complete_phys", "resume_complete_phys", "timeout_false_sound_phys_agg", "timeout_true_complete_phys_agg", "resume_complete_phys_agg", "negA_interrupted", "timeout_sound_physLat", "resume_complete_physLat",
+            "timeout_never_panics_physPar", "timeout_sound_physPar", "timeout_true_complete_physPar", "interrupted_between_physPar", "resume_complete_physPar", "resume_timeout_complete_physPar", "tcPar_timeout", "tcPar_interrupted"]
+TRUSTED = ["Props/C14PhysPar.lean (Model/EnginePhysParTimeout.lean, Proofs/PhysParTimeout.lean): run_timeout of an ascent_par! program over its concurrent indices - for EVERY schedule, pool size, deadline oracle and fuel "
+           "the call never panics (frozen / unfrozen protocol, also on the early return: the abandoned locals are dropped, the struct keeps Default indices of the CURRENT pool), what it leaves is well-formed, derivable "
+           "and keeps every row (timeout_sound_physPar), `true` means the least model (timeout_true_complete_physPar), and after any history of interrupted calls - each with its own schedule, pool and deadline - a "
+           "completing run() in any pool ends, without panic, with the least model of the original rows (resume_complete_physPar); aggregation-free relational programs; tied by `eng runtopp` / `eng runpp` on "
+           "ascent_par! + #![generate_run_timeout] programs in pools of 1..8 threads under every crash point",
+           "Props/C13PhysLat.lean (Model/EnginePhysLatTimeout.lean, Proofs/PhysLatFrom*.lean, PhysLatTimeout.lean): the physical engine WITH lattices from ANY legal program value (runPhysLat_from), idempotence of run() (rerun_idempotent_physLat, antisymmetric orders), run_timeout sound whatever it returns (timeout_sound_physLat) and completion of a resumed run (resume_complete_physLat); tied by `eng runtopl` / `eng runpl` on lattice programs",
            "Props/C13PhysAgg.lean (Proofs/NDAggRestart.lean, PhysAggTimeout*.lean): the re-run / run_timeout theorems for the PHYSICAL engine on stratified programs with aggregation / negation, relative to a completed reference run (restart_phys_agg, rerun_idempotent_phys_agg, timeout_false_sound_phys_agg, timeout_true_complete_phys_agg, resume_complete_phys_agg: any number of interruptions); tied by `eng runp` / `eng runtop` on aggregation programs",
            "Lean 4.33.0 kernel", "axioms: propext, Classical.choice, Quot.sound only (audited per theorem)",
            "statement: Props/C14.lean (arbitrary deadline oracle over the clock readings; any number of interruptions)",
@@ -178,7 +184,7 @@ def canon(c, out):
 
 
 def check(tier, replay=None):
-    return engcheck.run_property("C14", tier, modules=["AscentVerif.Props.C14", "AscentVerif.Props.C13L", "AscentVerif.Props.C13Agg", "AscentVerif.Props.C13Phys", "AscentVerif.Props.C13PhysAgg", "AscentVerif.Props.C13PhysLat"], theorems=THEOREMS, trusted=TRUSTED, group="c14",
+    return engcheck.run_property("C14", tier, modules=["AscentVerif.Props.C14", "AscentVerif.Props.C13L", "AscentVerif.Props.C13Agg", "AscentVerif.Props.C13Phys", "AscentVerif.Props.C13PhysAgg", "AscentVerif.Props.C13PhysLat", "AscentVerif.Props.C14PhysPar"], theorems=THEOREMS, trusted=TRUSTED, group="c14",
                                  build=build, oracle=oracle, canon=canon, what="run_timeout histories on compiled programs under the virtual clock",
                                  rule="generated programs compiled with #![generate_run_timeout] x inputs x EVERY crash point k = 0..13 (k-th clock reading fires; "
                                       "beyond the last reading the call completes) followed by run(), plus repeated interruptions k1 k2 .. then completion; after "
